@@ -406,7 +406,7 @@ fn c10_units(tier: Tier) -> Vec<Unit> {
     units.push(Unit::new(
         "boundary/all-vectors-x-ccr",
         1,
-        "one boundary: every vector 1-63 x all 256 CCR values x {alone, behind another pending request}: with I set nothing is accepted, no register or memory changes and the requests stay pending in order; with I clear exactly the oldest request is accepted",
+        "one boundary: every vector 1-63 x all 256 CCR values x {alone, behind another pending request}: with I set nothing is accepted, no register or memory changes and the same requests stay pending; with I clear exactly one of the pending requests is accepted, through the vector of its own number, and the other stays pending (which of two pending requests goes first is not fixed by the property)",
         move |ctx, _| {
             for v in 1..=63u8 {
                 for ccr in 0..=255u8 {
@@ -431,15 +431,33 @@ fn c10_units(tier: Tier) -> Vec<Unit> {
                         ctx.st.cases += 1;
                         ctx.st.nontrivial += 1;
                         let mut verdict = None;
+                        let mut pend_sorted = pend.clone();
+                        pend_sorted.sort();
                         if ccr & 0x80 != 0 {
-                            let want: Vec<u8> = std::iter::once(v).chain(second).collect();
-                            if r.is_err() || cpu.er != er || cpu.vh_pc() != 0x410000 || cpu.vh_ccr() != ccr || !wl.is_empty() || pend != want {
+                            let mut want: Vec<u8> = std::iter::once(v).chain(second).collect();
+                            want.sort();
+                            if r.is_err() || cpu.er != er || cpu.vh_pc() != 0x410000 || cpu.vh_ccr() != ccr || !wl.is_empty() || pend_sorted != want {
                                 verdict = Some(format!("vector {} requested with CCR {:02x} (I set): expected nothing to happen and {:?} to stay pending; PC {:06x} CCR {:02x} SP {:08x} pending {:?} writes {:?}", v, ccr, want, cpu.vh_pc(), cpu.vh_ccr(), cpu.er[7], pend, wl.len()));
                             }
                         } else {
-                            let want: Vec<u8> = second.into_iter().collect();
-                            if r.is_err() || cpu.er[7] != er[7].wrapping_sub(4) || pend != want || cpu.vh_ccr() & 0x80 == 0 {
-                                verdict = Some(format!("vector {} requested with CCR {:02x} (I clear): expected exactly this request to be accepted; SP {:08x} pending {:?} CCR {:02x}", v, ccr, cpu.er[7], pend, cpu.vh_ccr()));
+                            // exactly one of the pending requests is entered through its own vector; the other one stays
+                            let all: Vec<u8> = std::iter::once(v).chain(second).collect();
+                            let pc_now = cpu.vh_pc();
+                            let sp_now = cpu.er[7];
+                            let ccr_now = cpu.vh_ccr();
+                            let mut ok = false;
+                            for (k, &x) in all.iter().enumerate() {
+                                let mut rest = all.clone();
+                                rest.remove(k);
+                                rest.sort();
+                                let va = 4 * x as u32;
+                                let target = (0..4).fold(0u32, |acc, j| (acc << 8) | ctx.m.peek(va + j).unwrap_or(0) as u32) & 0x00ff_ffff;
+                                if pend_sorted == rest && pc_now == target {
+                                    ok = true;
+                                }
+                            }
+                            if r.is_err() || sp_now != er[7].wrapping_sub(4) || !ok || ccr_now & 0x80 == 0 {
+                                verdict = Some(format!("vector {} requested with CCR {:02x} (I clear){}: expected exactly one pending request to be accepted through its own vector; PC {:06x} SP {:08x} pending {:?} CCR {:02x}", v, ccr, second.map(|w| format!(" together with {}", w)).unwrap_or_default(), pc_now, sp_now, pend, ccr_now));
                             }
                         }
                         // undo the frame
@@ -462,7 +480,134 @@ fn c10_units(tier: Tier) -> Vec<Unit> {
             }
         },
     ));
+    // ---- queue depth: bursts of N requests raised while I is set, for every N up to 600 and around 2^16
+    units.push(Unit::new(
+        "boundary/queue-depth",
+        8,
+        "bursts while masked: for every N in 0..=600 and N in {65535, 65536, 65537}, N requests (vector numbers cycling through 1-63) are raised with I set; nothing is accepted while I is set; then I is cleared before every boundary (as RTE does) and boundaries are offered until no request is left: exactly N acceptances, each removing exactly one pending request and entering through that request's vector, and a further boundary does nothing",
+        move |ctx, chunk| {
+            let mut ns: Vec<u32> = (0..=600u32).filter(|n| n % 8 == chunk as u32).collect();
+            if chunk < 3 {
+                ns.push(65535 + chunk as u32);
+            }
+            for n in ns {
+                if let Some(msg) = burst_case(ctx, n) {
+                    ctx.custom_violation("c10", msg, json!({"burst": n}), json!(null), json!(null));
+                    if ctx.stop {
+                        return;
+                    }
+                }
+            }
+        },
+    ));
     units
+}
+
+/// One burst of `n` requests raised while I is set, then drained (unit boundary/queue-depth).
+pub fn burst_case(ctx: &mut Ctx, n: u32) -> Option<String> {
+                let big = n > 1000;
+                let vec_of = |i: u32| -> u8 { 1 + ((i * 7) % 63) as u8 };
+                let sp0 = 0x00ffe700u32;
+                {
+                    let cpu = &mut ctx.m.cpu;
+                    cpu.er = crate::hv::dom::background_regs();
+                    cpu.er[7] = sp0;
+                    cpu.vh_set_pc(0x410000);
+                    cpu.vh_set_ccr(0x80);
+                    cpu.vh_clear_pending_interrupts();
+                    for i in 0..n {
+                        cpu.vh_request_interrupt(vec_of(i));
+                    }
+                }
+                ctx.st.cases += 1;
+                ctx.st.nontrivial += 1;
+                // masked boundary: nothing happens
+                let r = ctx.m.cpu.vh_try_interrupt();
+                let mut want: Vec<u8> = (0..n).map(vec_of).collect();
+                want.sort();
+                let mut pend = ctx.m.cpu.vh_pending_interrupts();
+                pend.sort();
+                if r.is_err() || pend != want || ctx.m.cpu.er[7] != sp0 || ctx.m.cpu.vh_pc() != 0x410000 {
+                    let msg = format!("burst of {} requests while I is set: a masked boundary changed something (pending {} of {}, SP {:08x}, PC {:06x})", n, pend.len(), n, ctx.m.cpu.er[7], ctx.m.cpu.vh_pc());
+                    ctx.m.cpu.vh_clear_pending_interrupts();
+                    return Some(msg);
+                }
+                // unmasked boundaries until the queue is empty
+                let mut accepted = 0u32;
+                let mut bad: Option<String> = None;
+                for _ in 0..(n + 2) {
+                    let before = if big { Vec::new() } else { ctx.m.cpu.vh_pending_interrupts() };
+                    {
+                        let cpu = &mut ctx.m.cpu;
+                        cpu.er[7] = sp0;
+                        cpu.vh_set_pc(0x410000);
+                        cpu.vh_set_ccr(0x00);
+                    }
+                    crate::cpu::verif_hooks::bus_write_log_enable(true);
+                    let r = ctx.m.cpu.vh_try_interrupt();
+                    let mut wl = Vec::new();
+                    crate::cpu::verif_hooks::bus_write_log_take(&mut wl);
+                    crate::cpu::verif_hooks::bus_write_log_enable(false);
+                    let entered = ctx.m.cpu.er[7] == sp0.wrapping_sub(4) && ctx.m.cpu.vh_ccr() & 0x80 != 0;
+                    let pc_now = ctx.m.cpu.vh_pc();
+                    for a in wl {
+                        if let Some(p) = ctx.m.peek_shadow(a) {
+                            if let Some(s) = ctx.m.real_slot(a) {
+                                *s = p;
+                            }
+                        }
+                    }
+                    if r.is_err() {
+                        bad = Some(format!("burst of {}: acceptance {} failed: {:?}", n, accepted, r.err().map(|e| format!("{:#}", e))));
+                        break;
+                    }
+                    if entered {
+                        accepted += 1;
+                        if !big {
+                            let after = ctx.m.cpu.vh_pending_interrupts();
+                            // exactly one request left the queue, and the entry went through its vector
+                            let mut b2 = before.clone();
+                            let mut ok = false;
+                            if after.len() + 1 == before.len() {
+                                let mut a2 = after.clone();
+                                a2.sort();
+                                b2.sort();
+                                // the removed element
+                                let mut removed = None;
+                                let mut j = 0;
+                                for (i, &x) in b2.iter().enumerate() {
+                                    if j < a2.len() && a2[j] == x {
+                                        j += 1;
+                                    } else if removed.is_none() {
+                                        removed = Some(x);
+                                    } else {
+                                        removed = None;
+                                        let _ = i;
+                                        break;
+                                    }
+                                }
+                                if let Some(x) = removed {
+                                    let va = 4 * x as u32;
+                                    let target = (0..4).fold(0u32, |acc, k| (acc << 8) | ctx.m.peek(va + k).unwrap_or(0) as u32) & 0x00ff_ffff;
+                                    ok = pc_now == target;
+                                }
+                            }
+                            if !ok {
+                                bad = Some(format!("burst of {}: acceptance {} did not remove exactly one pending request and enter through its vector (pending {} -> {}, PC {:06x})", n, accepted, before.len(), after.len(), pc_now));
+                                break;
+                            }
+                        }
+                    } else if ctx.m.cpu.er[7] != sp0 || pc_now != 0x410000 {
+                        bad = Some(format!("burst of {}: a boundary changed SP/PC without a complete entry (SP {:08x}, PC {:06x})", n, ctx.m.cpu.er[7], pc_now));
+                        break;
+                    }
+                }
+                let left = ctx.m.cpu.vh_pending_interrupts().len();
+                if bad.is_none() && (accepted != n || left != 0) {
+                    bad = Some(format!("burst of {} requests raised while I was set: {} were delivered after I was cleared, {} are still pending", n, accepted, left));
+                }
+                ctx.m.cpu.vh_clear_pending_interrupts();
+                bad
 }
 
 pub fn c10(tier: Tier, _seed: u64) -> Prop {
@@ -490,6 +635,16 @@ pub fn c10(tier: Tier, _seed: u64) -> Prop {
 }
 
 pub fn replay_c10(case: &Value) -> bool {
+    if let Some(n) = case["burst"].as_u64() {
+        let mut ctx = Ctx::new();
+        return match burst_case(&mut ctx, n as u32) {
+            Some(m) => {
+                println!("FAILS: {}", m);
+                false
+            }
+            None => true,
+        };
+    }
     let isa = Isa::new();
     let g = build_guest(&isa, case["main"].as_u64().unwrap_or(0) as usize, case["long"].as_bool().unwrap_or(false));
     let mut cpu = Cpu::new();
